@@ -3,10 +3,16 @@
 proof:           Delta/*.v -> Properties/C08.v
 correspondence:  payload of the bidirectional delta, t1 + d, t2 - d, and d applied to
                  corrupted bases (result + whether an error was logged), implementation vs model
-direct oracle:   t2 - d == t1, (t2 - d) + d == t2, back-and-forth sequences (+,-,+,...) of
+direct oracle:   t2 - d == t1, (t2 - d) + d == t2, (t1 + d) - d == t1, t2' - d == t1 for t2' = t2 with every
+                 dict's insertion order reversed, back-and-forth sequences (+,-,+,...) of
                  length <= 6; every single-location corruption at a values_changed / type_changes
-                 path raises (raise_errors=True) or logs (raise_errors=False); a directed delta
-                 refuses subtraction.
+                 path raises (raise_errors=True) or logs (raise_errors=False), on the t1 side for '+'
+                 and on the t2 side for '-'; a directed delta refuses subtraction.
+round 3:         planted CLASH pairs (a list index both removed and added, merged by mutual_add_removes),
+                 pairs whose dicts list their common keys in a different order (korder false), subtraction
+                 from the implementation's own sum and from a reordered t2, subtraction from corrupted t2
+                 bases, dictionary_item_removed corruptions (model: detected), the documented non-verified
+                 categories (DOC_CASES) - all compared with the model.
 """
 import copy
 
@@ -16,7 +22,9 @@ from harness.props import c01
 THEOREM_FILE = "Properties/C08.v"
 COQCHK = ["Properties.C08"]
 COQ_NEEDS = ["Delta.DeltaVerifyHyp"]
-RULE = ("pairs as in C01 (ordered mode; random nested values with 1-3 edits, planted atom-list edits, independent pairs) x zip x threshold; "
+RULE = ("pairs as in C01 (ordered mode; random nested values with 1-3 edits, planted atom-list edits, independent pairs) + planted clash pairs "
+        "(difflib removes and adds one index: mutual_add_removes merges them) + pairs with permuted dict key order, x zip x threshold; "
+        "subtraction also from the sum t1+d itself, from t2 with reversed dict orders and from t2 corrupted at a changed location; "
         "the refusal of subtraction is checked for bidirectional=False x always_include_values x raise_errors; operation sequences (+corrupted, +corrupted, +t1, -t2, +corrupted, +corrupted) "
         "on ONE Delta object (raise_errors True and False) are compared step by step with a fresh object and with the pure model; "
         "for each delta every values_changed / type_changes path is corrupted once with a value that differs (Python !=) from the recorded "
@@ -24,7 +32,7 @@ RULE = ("pairs as in C01 (ordered mode; random nested values with 1-3 edits, pla
 TRUSTED = c01.TRUSTED
 ASSUMPTIONS = c01.ASSUMPTIONS
 
-HYP_HDR = DC.HDR[:-1] + " Delta.DeltaVerify Delta.DeltaVerifyIndep Delta.DeltaVerifyHyp."
+HYP_HDR = DC.HDR[:-1] + " Delta.DeltaVerify Delta.DeltaVerifyIndep Delta.DeltaGuard Delta.DeltaChain Delta.DeltaHyp Delta.DeltaVerifyHyp."
 
 
 def keys_nonneg(v):
@@ -68,6 +76,132 @@ def mutual_clash(t1, t2, cfg):
     return any(seen)
 
 
+def ordfree(v):
+    """mirror of DeltaGuard.ordfree: no dict / set anywhere"""
+    if isinstance(v, (list, tuple)):
+        return all(ordfree(x) for x in v)
+    return not isinstance(v, (dict, set, frozenset))
+
+
+def gen_clash(ctx, n):
+    """pairs on which difflib removes index i of a list and adds index i (clash: mutual_add_removes merges the two
+    levels into one values_changed): distinct atoms x0..x(n-1), x_i deleted, one item inserted in front and one
+    at t2 index i, separated from the deletion by the equal item x_(i-1); also the mirrored pair"""
+    rng = ctx.rng
+    out = []
+    pool = ["a", "b", "c", "d", "e", "f", "g", "h", 10, 11, 12, 13, 14, 2.5, 3.5, None, b"x", b"y"]
+    for _ in range(n):
+        m = rng.randint(4, 7)
+        xs = rng.sample(pool, m + 2)
+        y0, y1, xs = xs[0], xs[1], xs[2:]
+        i = rng.randint(1, m - 1)
+        t2 = [y0] + xs[:i - 1] + [y1] + xs[i - 1:i] + xs[i + 1:]
+        a, b = (xs, t2) if rng.random() < 0.6 else (t2, xs)
+        a, b = c01.plant_ld(rng, rng.choice([0, 0, 1, 2]), (a, b))
+        ctx.count("gen:planted_clash")
+        out.append((a, b))
+    return out
+
+
+def gen_dict_removed(ctx, n):
+    """t2 = t1 with one key of one dict (that has >= 2 keys) removed, sometimes after another edit: dictionary_item_removed
+    entries, whose recorded value _do_item_removed verifies"""
+    rng = ctx.rng
+    out = []
+
+    def dict_paths(v, pre, acc):
+        if isinstance(v, dict):
+            if len(v) >= 2:
+                acc.append(pre)
+            for k, x in v.items():
+                dict_paths(x, pre + [k], acc)
+        elif isinstance(v, list):
+            for i, x in enumerate(v):
+                dict_paths(x, pre + [i], acc)
+        return acc
+    tries = 0
+    while len(out) < n and tries < 20 * n:
+        tries += 1
+        t1 = V.gen_value(rng, depth=rng.choice([2, 3]), width=4, kinds="LDDD")
+        ps = dict_paths(t1, [], [])
+        if not ps:
+            continue
+        pth = rng.choice(ps)
+        dct = dict(get_at(t1, pth))
+        del dct[rng.choice(list(dct))]
+        t2 = set_at(copy.deepcopy(t1), pth, dct)
+        if rng.random() < 0.4:
+            try:
+                t2, _k = V.edit(rng, t2, kinds=["replace_atom"])
+            except Exception:
+                pass
+        ctx.count("gen:dict_key_removed")
+        out.append((t1, t2))
+    return out
+
+
+def gen_reordered(ctx, pairs, n):
+    """(t1, t2') for generated pairs (t1, t2) with t2' = t2 with the insertion order of every dict reversed:
+    paired dicts list their common keys in different orders (korder false)"""
+    out = []
+    for t1, t2 in pairs:
+        if len(out) >= n:
+            break
+        r2 = c01.reordered(t2)
+        if V.canon(r2) != V.canon(t2) and not korder(t1, r2):
+            ctx.count("gen:permuted_dict_order")
+            out.append((copy.deepcopy(t1), r2))
+    return out
+
+
+# documented behaviour beyond the property's quantifier (Properties/C08.v section 13): (t1, t2, base, expectation)
+# 'detected' = an error is logged / raised, 'accepted' = applied (or skipped) silently
+DOC_CASES = [
+    ({'a': 1, 'b': 2}, {'a': 1}, {'a': 1, 'b': 9}, "detected"),      # dictionary_item_removed, value differs
+    ((1, 2, 3), (1, 2), (1, 2, 9), "detected"),                      # iterable_item_removed from a tuple
+    ({'a': 1, 'b': 2}, {'a': 1}, {'a': 1}, "accepted"),              # removed key is missing
+    ([1, 2, 3], [1, 2], [1, 2, 9], "accepted"),                      # removed LIST item differs
+    ({1, 2}, {1}, {1, 5}, "accepted"),                               # absent set member
+    ([1, 2], [1, 2, 3], [1, 7], "accepted"),                         # iterable_item_added
+    ({'a': 1}, {'a': 1, 'b': 2}, {'a': 1, 'b': 7}, "accepted"),      # dictionary_item_added over an existing key
+    ([1, 2, 3, 4], [0, 1, 2, 3, 5], [9, 9, 9, 4], "accepted:default-mode"),   # opcodes: old values not compared
+    ({'a': 1, 'b': 2}, {'b': 2}, None, "order"),                     # t2 - d == t1 but the key order differs
+]
+
+
+def doc_cases(ctx, cases):
+    """the witnesses of Properties/C08.v section 12 / 13 on the implementation and (same inputs) on the model"""
+    from deepdiff import DeepDiff, Delta
+    for t1, t2, base, want in DOC_CASES:
+        want, _, only = want.partition(":")
+        for zip_ in ((False,) if only else (False, True)):
+            cfg = dict(zip_ordered_iterables=zip_, threshold_to_diff_deeper=0)
+            dd = DeepDiff(copy.deepcopy(t1), copy.deepcopy(t2), view="tree", **cfg)
+            d = Delta(dd, bidirectional=True)
+            rem, add = DC.impl_orders(d)
+            conv = DC.conv_table(DC.type_change_pairs(dd))
+            tag = dict(t1=repr(t1), t2=repr(t2), base=repr(base), zip=zip_, documented=want)
+            if want == "order":
+                back = copy.deepcopy(t2) - d
+                same_order = V.canon(back) == V.canon(t1)
+                ctx.count("doc:sub_result_equal_but_reordered" if (V.typed_eq(back, t1) and not same_order) else "doc:sub_result_identical")
+                if not V.typed_eq(back, t1):
+                    ctx.fail(dict(t1=repr(t1), t2=repr(t2), cfg=cfg, observed=repr(back), **c01.describe(t1, t2)), "t2 - d != t1 on a documented witness")
+                continue
+            try:
+                copy.deepcopy(base) + Delta(dd, bidirectional=True, raise_errors=True)
+                raised = False
+            except Exception:
+                raised = True
+            with DC.Counting() as cnt:
+                res = copy.deepcopy(base) + d
+            got = "detected" if (raised and cnt.n > 0) else "accepted" if (not raised and cnt.n == 0) else "inconsistent"
+            ctx.count("doc:%s:%s" % (want, "as_documented" if got == want else "CHANGED_to_" + got))
+            ctx.seen(("doc", repr(t1), repr(t2), repr(base), zip_), nontrivial=True)
+            cases.append((DC.model_expr(t1, t2, zip_, 0, True, False, base, conv, rem, add),
+                          [DC.delta_obs(d.diff), [DC.canon_unordered(res), cnt.n > 0]], dict(tag, op="documented verification behaviour")))
+
+
 def ntp_vals(t2, d):
     """mirror of DeltaVerifyHyp.ntp_valsb: no tuple is the parent (in t2) of a location the subtraction writes a
     value change to (the reverse key of a values_changed entry is its new_path, else its path)"""
@@ -84,21 +218,24 @@ def ntp_vals(t2, d):
     return True
 
 
-def hyp_expr8(t1, t2, zip_, thr, conv_tbl, kn):
+def hyp_expr8(t1, t2, zip_, thr, conv_tbl, kn, rrem, radd):
     """Coq expression (sx) of the observed guards of the C08 theorems on the bidirectional delta of the diff:
     indep_verified d (claimed by C08_indep_guard_of_diff when keys_nonneg t2), ops_ok 0 on every difflib opcode
-    list (ops_disjoint), sym_okb on every entry of the result tree (sym_ok incl. moved_identical), keys_nonneg t2"""
+    list (ops_disjoint), sym_okb on every entry of the result tree (sym_ok incl. moved_identical), keys_nonneg t2,
+    korder, no_clash, ntp_vals, ops_sorted2, and (round 3) orders_ok_at on the REVERSED delta for the implementation's
+    visiting orders of the reversed delta, ordfree t1, ordfree t2"""
     ops = D.coq_ops_table(D.opcode_table(t1, t2))
     return ("(let r := run_diff hatom_deep (tbl_udiff %s) (tbl_ops %s) no_paths no_paths %s %s %s in "
             "let d := to_delta (tbl_conv %s) true false (tbl_ops %s) %s %s (fst r) (snd r) in "
-            "sx_c08hyp8 %s (ops_table_disjointb %s) (forallb sym_okb (fst r)) (keys_nonneg %s) (korderb %s %s) "
+            "sx_c08hyp11 %s (ops_table_disjointb %s) (forallb sym_okb (fst r)) (keys_nonneg %s) (korderb %s %s) "
             "(no_clashb (fst (diff hatom_deep (tbl_udiff %s) (tbl_ops %s) no_paths no_paths %s %s %s [] []))) "
-            "(ntp_valsb %s d) (ops_table_sorted2b %s))") % (
+            "(ntp_valsb %s d) (ops_table_sorted2b %s) "
+            "(orders_okb (order_by %s fst) (order_by %s fst) (reverse d)) (ordfree %s) (ordfree %s))") % (
         D.coq_udiff_table(D.udiff_table(t1, t2)), ops, D.coq_cfg(zip_, thr, True), V.to_coq(t1), V.to_coq(t2),
         conv_tbl, ops, V.to_coq(t1), V.to_coq(t2),
         "(indep_verified d)" if kn else "true", ops, V.to_coq(t2), V.to_coq(t1), V.to_coq(t2),
         D.coq_udiff_table(D.udiff_table(t1, t2)), ops, D.coq_cfg(zip_, thr, True), V.to_coq(t1), V.to_coq(t2),
-        V.to_coq(t2), ops)
+        V.to_coq(t2), ops, DC.coq_paths(rrem), DC.coq_paths(radd), V.to_coq(t1), V.to_coq(t2))
 
 
 def holds8(t1, t2, cfg, always=False):
@@ -198,6 +335,24 @@ def one_pair(ctx, t1, t2, cases, corr=True, hyp_cases=None):
         except Exception as e:
             fwd = back = None
             ctx.fail(dict(base_case, observed="raised %s: %s" % (type(e).__name__, str(e)[:150])), "bidirectional delta raised while inverting")
+        # --- (t1 + d) - d == t1 ; t2' - d == t1 for t2' = t2 up to dict insertion order (C08_sub_inverts_from_any_equal_base) ---
+        rt2 = c01.reordered(t2)
+        rt2_differs = V.canon(rt2) != V.canon(t2)
+        back2 = back3 = None
+        if fwd is not None:
+            try:
+                with DC.Counting() as cnt:
+                    back2 = copy.deepcopy(fwd) - d
+                    back3 = (copy.deepcopy(rt2) - d) if rt2_differs else None
+                if not V.typed_eq(back2, t1) or (rt2_differs and not V.typed_eq(back3, t1)) or cnt.n:
+                    ctx.fail(dict(base_case, observed=dict(sum_minus_d=repr(back2), reordered_t2=repr(rt2), reordered_t2_minus_d=repr(back3), errors=cnt.n)),
+                             "bidirectional delta does not invert: " + ("(t1+d)-d != t1" if not V.typed_eq(back2, t1) else "t2'-d != t1 for t2' == t2 with another dict order" if cnt.n == 0 else "errors logged"))
+                ctx.count("sub_from_sum")
+                if rt2_differs:
+                    ctx.count("sub_from_reordered_t2")
+            except Exception as e:
+                back2 = back3 = None
+                ctx.fail(dict(base_case, observed="raised %s: %s" % (type(e).__name__, str(e)[:150])), "(t1+d)-d or t2'-d raised")
         # --- back and forth ---
         if rng.random() < 0.3:
             cur, side = copy.deepcopy(t1), 1
@@ -275,6 +430,61 @@ def one_pair(ctx, t1, t2, cases, corr=True, hyp_cases=None):
                         corrupt2.append(set_at(copy.deepcopy(t2), keys2, corrupt_value(rng, ch["new_value"])))
                     except Exception:
                         pass
+        # --- corruption on the t2 side: corrupted_t2 - d must raise / log (the reverse delta's recorded old value is new_value) ---
+        sub_corrupt = []
+        for cat in ("values_changed", "type_changes"):
+            for p, ch in d.diff.get(cat, {}).items():
+                if "new_value" not in ch or "old_value" not in ch or len(sub_corrupt) >= 2:
+                    continue
+                try:
+                    keys2 = py_path(DC.parse_pathc(ch["new_path"])) if ch.get("new_path") else py_path(DC.parse_pathc(p))
+                    get_at(t2, keys2)
+                    base2 = set_at(copy.deepcopy(t2), keys2, corrupt_value(rng, ch["new_value"]))
+                except Exception:
+                    continue
+                ctx.count("corruptions_t2_side")
+                ccase = dict(base_case, op="sub", corrupted_path=ch.get("new_path") or p, corrupted_base=repr(base2), recorded=repr(ch["new_value"]))
+                raised = False
+                try:
+                    copy.deepcopy(base2) - Delta(dd, bidirectional=True, raise_errors=True)
+                except Exception:
+                    raised = True
+                with DC.Counting() as cnt:
+                    try:
+                        res2 = copy.deepcopy(base2) - d
+                    except Exception as e:
+                        res2 = e
+                ctx.seen((repr(t1), repr(t2), zip_, thr, "sub", repr(base2)), nontrivial=True)
+                if not raised:
+                    ctx.fail(dict(ccase, observed="raise_errors=True did not raise"), "a mismatched base was accepted by a subtraction (raise_errors=True)")
+                elif cnt.n == 0 and not isinstance(res2, Exception):
+                    ctx.fail(dict(ccase, observed="no error logged"), "a mismatched base was silently accepted by a subtraction (raise_errors=False)")
+                if not isinstance(res2, Exception):
+                    sub_corrupt.append((base2, res2, cnt.n))
+        # --- dictionary_item_removed with a differing value (beyond the quantifier; the model detects it:
+        #     C08_detects_removed_dict_item_when_reached) : observed, compared with the model ---
+        drem_corrupt = []
+        for p, v in list(d.diff.get("dictionary_item_removed", {}).items())[:1]:
+            try:
+                keys = py_path(DC.parse_pathc(p))
+                if not isinstance(get_at(t1, keys[:-1]), dict):
+                    continue
+                based = set_at(copy.deepcopy(t1), keys, corrupt_value(rng, v))
+            except Exception:
+                continue
+            try:
+                copy.deepcopy(based) + Delta(dd, bidirectional=True, raise_errors=True)
+                raised = False
+            except Exception:
+                raised = True
+            with DC.Counting() as cnt:
+                try:
+                    resd = copy.deepcopy(based) + d
+                except Exception as e:
+                    resd = e
+            ctx.count("removed_key_corruption:" + ("raised" if raised else "accepted"))
+            if not isinstance(resd, Exception):
+                drem_corrupt.append((based, resd, cnt.n))
         # --- correspondence ---
         if guard and fwd is not None:   # (a replay runs this block too: its cases are simply not compiled)
             rem, add = DC.impl_orders(d)
@@ -290,6 +500,23 @@ def one_pair(ctx, t1, t2, cases, corr=True, hyp_cases=None):
                           [payload, [DC.canon_unordered(fwd), False]], dict(tag, op="add")))
             cases.append((DC.model_expr(t1, t2, zip_, thr, True, False, t2, conv, rrem, radd, want="sub"),
                           [payload, [DC.canon_unordered(back), False]], dict(tag, op="sub")))
+            # subtraction from the implementation's own sum and from t2 with reversed dict orders (model: same delta, that base)
+            if back2 is not None and DC.in_universe(fwd) and (V.canon(fwd) != V.canon(t2) or rng.random() < 0.15):
+                cases.append((DC.model_expr(t1, t2, zip_, thr, True, False, fwd, conv, rrem, radd, want="sub"),
+                              [payload, [DC.canon_unordered(back2), False]], dict(tag, op="sub from the sum t1+d", base=repr(fwd))))
+            if back3 is not None and rng.random() < 0.5:
+                cases.append((DC.model_expr(t1, t2, zip_, thr, True, False, rt2, conv, rrem, radd, want="sub"),
+                              [payload, [DC.canon_unordered(back3), False]], dict(tag, op="sub from reordered t2", base=repr(rt2))))
+            for base2, res2, n2 in sub_corrupt[:1]:
+                if DC.in_universe(base2) and DC.in_universe(res2):
+                    # conv may be asked about the corrupted value (reverse type change without recorded value never occurs: bidirectional)
+                    cases.append((DC.model_expr(t1, t2, zip_, thr, True, False, base2, conv, rrem, radd, want="sub"),
+                                  [payload, [DC.canon_unordered(res2), n2 > 0]], dict(tag, op="sub on corrupted t2", base=repr(base2))))
+            for based, resd, nd in drem_corrupt:
+                if DC.in_universe(based) and DC.in_universe(resd):
+                    convd = DC.conv_table(pairs + [(type(x.t2), get_safe(based, x)) for x in dd.get("type_changes", []) if get_safe(based, x) is not DC._NF])
+                    cases.append((DC.model_expr(t1, t2, zip_, thr, True, False, based, convd, rem, add),
+                                  [payload, [DC.canon_unordered(resd), nd > 0]], dict(tag, op="add on a base with a differing removed key", base=repr(based))))
             # the refusal in the model (a function of bidirectional only), always_include_values varied independently
             for aiv in ((False, True) if (ctx.thorough or rng.random() < 0.2) else ()):
                 try:
@@ -369,8 +596,15 @@ def one_pair(ctx, t1, t2, cases, corr=True, hyp_cases=None):
                               else "hyp:clash_case_outside_guards_of_sub_inverts_default")
                 ctx.count("hyp:all_data_guards_of_sub_inverts_default" if (ko and (nc or (nt and kn1)))
                           else "hyp:outside_data_guards_of_sub_inverts_default")
-                hyp_cases.append((hyp_expr8(t1, t2, zip_, thr, conv, kn), [True, True, True, kn, ko, nc, nt, True],
-                                  dict(tag, hypotheses="indep_verified/ops_disjoint/sym_ok/keys_nonneg/korder/no_clash/ntp_vals/ops_sorted2")))
+                of1, of2 = ordfree(t1), ordfree(t2)
+                clash_ok = nc or (nt and kn1)          # the disjunctive guard of the round-3 theorems
+                ctx.count("hyp:inside_guards_of_back_and_forth_default" if (ko and clash_ok) else "hyp:outside_guards_of_back_and_forth_default")
+                if of1:
+                    ctx.count("hyp:ordfree_t1:" + ("inside" if (nc or nt) else "outside") + "_guards_of_sub_inverts_exact")
+                if of1 and of2:
+                    ctx.count("hyp:ordfree_both:" + ("inside" if (nc or nt) else "outside") + "_guards_of_back_and_forth_exact")
+                hyp_cases.append((hyp_expr8(t1, t2, zip_, thr, conv, kn, rrem, radd), [True, True, True, kn, ko, nc, nt, True, True, of1, of2],
+                                  dict(tag, hypotheses="indep_verified/ops_disjoint/sym_ok/keys_nonneg/korder/no_clash/ntp_vals/ops_sorted2/orders_ok(reverse d)/ordfree t1/ordfree t2")))
             for base, res, n in corrupt_cases[:2]:
                 if not DC.in_universe(base) or not DC.in_universe(res):
                     continue
@@ -391,9 +625,13 @@ def get_safe(base, level):
 def run(ctx):
     cases = []
     hyp_cases = []
-    pairs = c01.gen_random(ctx, 2000 if ctx.thorough else 350)
+    pairs = c01.gen_random(ctx, 2000 if ctx.thorough else 330)
+    pairs += gen_clash(ctx, 200 if ctx.thorough else 24)
+    pairs += gen_dict_removed(ctx, 150 if ctx.thorough else 16)
+    pairs += gen_reordered(ctx, pairs, 200 if ctx.thorough else 24)
     for t1, t2 in pairs:
         one_pair(ctx, t1, t2, cases, hyp_cases=hyp_cases)
+    doc_cases(ctx, cases)
     for c in cases[:3]:
         ctx.sample(c[2])
     ctx.coq_cases("c08", DC.HDR, cases, shard=120, label="payload+add+sub+corrupted")
